@@ -224,6 +224,13 @@ func (d *detReader) Read(p []byte) (int, error) {
 	return len(p), nil
 }
 
+func writeJSON(path string, v any) {
+	b, _ := json.Marshal(v)
+	tmp := path + ".tmp"
+	os.WriteFile(tmp, b, 0o644)
+	os.Rename(tmp, path)
+}
+
 func (r *e2e) writeRecord() {
 	k := r.k
 	rec := r.rec
